@@ -128,11 +128,17 @@ Inductive op :=
 | OGroup (g : str)                                  (* parser.group(g) *)
 | ODecl (g : gsel) (k : kind) (n : str)             (* <g>.option(n) / multi_option(n) / toggle(n) *)
 | OSet (g : gsel) (k : kind) (n : str) (x : setter) (* <g>.option(n).short_name(s) ... (the fluent form) *)
+| OHDecl (g : str) (k : kind) (n : str) (x : option setter)
+      (* through a group& the caller obtained earlier (held handle, parser::group() is NOT called again):
+         held_g.option(n) [.short_name(s) ...] *)
+| OHSet (i : objid) (x : setter)                    (* through an option&/multi_option&/toggle& obtained earlier *)
 | OMove                                             (* parser q(std::move(p)) / q = std::move(p); go on with q *)
 | OParse.                                           (* parse of an empty argument vector *)
 Inductive presult := POk | PUser | PDev.
-(* RDevSet i: the declaration returned object i, then its setter raised parser_error *)
-Inductive outcome := RGroup (g : str) | ROk (i : objid) | RDev | RDevSet (i : objid) | RMoved | RParse (r : presult).
+(* RDevSet i: the declaration returned object i, then its setter raised parser_error;
+   RNoHandle: the case uses a handle that no earlier call handed out (the driver skips the operation) *)
+Inductive outcome := RGroup (g : str) | ROk (i : objid) | RDev | RDevSet (i : objid) | RMoved | RParse (r : presult)
+                   | RNoHandle.
 
 Definition select (p : parser) (g : gsel) : parser * str :=
   match g with GDirect => (p, default_key) | GNamed n => (parser_group p n, n) end.
@@ -197,6 +203,15 @@ Definition k1_name (p : parser) (n : str) : bool :=
 Definition display_order (p : parser) : list (kind * str) := flat_map g_order p.
 
 (* ---- one operation *)
+(* the setter part of the fluent form, applied to the object i that the declaration returned *)
+Definition set_on (p1 : parser) (i : objid) (x : setter) : parser * outcome :=
+  match lookup p1 i with
+  | None => (p1, RDev)                           (* unreachable: the object exists *)
+  | Some ob => match apply_setter x ob with
+               | None => (p1, RDevSet i)
+               | Some ob' => (store p1 i ob', ROk i)
+               end
+  end.
 Definition step (p : parser) (o : op) : parser * outcome :=
   match o with
   | OGroup g => (parser_group p g, RGroup g)
@@ -204,14 +219,22 @@ Definition step (p : parser) (o : op) : parser * outcome :=
   | OSet g k n x =>
       match declare p g k n with
       | (p1, None) => (p1, RDev)
-      | (p1, Some i) =>
-          match lookup p1 i with
-          | None => (p1, RDev)                           (* unreachable: declare returned the object *)
-          | Some ob => match apply_setter x ob with
-                       | None => (p1, RDevSet i)
-                       | Some ob' => (store p1 i ob', ROk i)
-                       end
+      | (p1, Some i) => set_on p1 i x
+      end
+  | OHDecl g k n xo =>
+      match gfind p g with
+      | None => (p, RNoHandle)                   (* no group& for g was ever handed out *)
+      | Some _ =>
+          match group_declare p g k n, xo with
+          | (p1, None), _ => (p1, RDev)
+          | (p1, Some i), None => (p1, ROk i)
+          | (p1, Some i), Some x => set_on p1 i x
           end
+      end
+  | OHSet i x =>
+      match lookup p i with
+      | None => (p, RNoHandle)                   (* the object was never handed out *)
+      | Some _ => set_on p i x
       end
   | OMove => (p, RMoved)             (* groups_, group_order_ move with their nodes; adopt_groups re-points parser_ *)
   | OParse => (p, RParse (parse_empty p))
